@@ -16,6 +16,9 @@ CONSTANTS PATHS,      \* paths the authority administrates (subset of Paths)
           FATES_OUT,  \* subset of {"ok","err","to"}
           FATES_IN,   \* subset of {"ok","err","fok","ferr","fto"}
           SEND_CH,    \* channels users of A send over (subset of Chans)
+          WS,         \* receiver variants of a transfer (subset of {0, 1})
+          WLPAIRS,    \* address pairs the whitelist administration offers (strings snd>rcv)
+          BLS,        \* denominations the blacklist administration offers (subset of Denoms)
           MaxPk,      \* bound on packets created (both directions)
           MaxT        \* bound on time
 
@@ -29,8 +32,8 @@ Created(S) == S.ns["AB"] + S.ns["AC"] + S.nr
 
 BlockActs(S) == { [a |-> "Block", dt |-> d] : d \in BDTS }
 
-SendActsWith(S, amts) == With(With(With(With(Base("Send"), "d", Denoms), "ch", SEND_CH), "amt", amts), "fate", FATES_OUT)
-RecvActsWith(S, amts) == With(With(With(With(Base("Recv"), "d", Denoms), "ch", {"AB"}), "amt", amts), "fate", FATES_IN)
+SendActsWith(S, amts) == With(With(With(With(With(Base("Send"), "d", Denoms), "ch", SEND_CH), "amt", amts), "fate", FATES_OUT), "w", WS)
+RecvActsWith(S, amts) == With(With(With(With(With(Base("Recv"), "d", Denoms), "ch", {"AB"}), "amt", amts), "fate", FATES_IN), "w", WS)
 
 RelayActs(S) ==
     UNION { IF P.dir = "out"
@@ -45,10 +48,13 @@ PlainActs(name, p) == With(With(Base(name), "d", {PathD(p)}), "ch", {PathCh(p)})
 
 AdminActs(S) == UNION { QuotaActs("Add", p) \cup QuotaActs("Update", p) \cup PlainActs("Remove", p) \cup PlainActs("Reset", p) : p \in PATHS }
 
+\* whitelist / blacklist administration
+ListActs(S) == With(Base("WlAdd") \cup Base("WlDel"), "pair", WLPAIRS) \cup With(Base("BlAdd") \cup Base("BlDel"), "d", BLS)
+
 \* authority messages that are rejected by stateless validation
 BadAdminActs(S) == UNION { With(With(With(With(With(Base(n), "d", {PathD(p)}), "ch", {PathCh(p)}), "qs", {0, 101}), "qr", {0}), "dur", {0, 1})
                            : n \in {"Add", "Update"}, p \in PATHS }
 
-Acts(S, c0) == BlockActs(S) \cup AdminActs(S) \cup RelayActs(S)
+Acts(S, c0) == BlockActs(S) \cup AdminActs(S) \cup RelayActs(S) \cup ListActs(S)
                \cup (IF Created(S) - c0 < MaxPk THEN SendActsWith(S, AMTS) \cup RecvActsWith(S, AMTS) ELSE {})
 =============================================================================
